@@ -40,13 +40,22 @@ class ExcC(Exception):
         self.b = b
 
 
-EXC_TYPES = {'ExcA': ExcA, 'ExcB': ExcB, 'ExcC': ExcC, 'KeyError': KeyError, 'ZeroDivisionError': ZeroDivisionError}
+class ExcD(Exception):
+    """constructor needs two positional arguments (cannot be rebuilt from a single string)"""
+
+    def __init__(self, a, b):
+        super().__init__(a, b)
+
+
+EXC_TYPES = {'ExcA': ExcA, 'ExcB': ExcB, 'ExcC': ExcC, 'KeyError': KeyError, 'ZeroDivisionError': ZeroDivisionError, 'ExcD': ExcD}
 
 
 def make_exc(kind, x):
     t = EXC_TYPES[kind]
     if t is ExcC:
         return ExcC(x, 7)
+    if t is ExcD:
+        return ExcD('boom', x)
     return t(('boom', x))
 
 
